@@ -186,26 +186,52 @@ def addComps (c : ObjId) : List ObjId → St → Res
       | (st1, none) => addComps c t st1
       | r => r
 
-/-- half_space.py:HalfSpace._add_new_children_to_cell (`self._cell = some c`): the cells first, then
-    the surfaces.  Python iterates two `set`s; the model takes the leaves left to right (the order only
-    matters for *which* items were appended when an append raises). -/
-def addChildren (st : St) (c : ObjId) (other : HS) : Res :=
-  match addComps c other.comps st with
-  | (st1, none) => addSurfs c other.surfs st1
-  | r => r
+/-- first pass of half_space.py:_add_new_children_to_cell over the cells of the new tree: the ones that
+    have to be appended (`acc`, a Python `set`: identity), or `none` when the container holds another cell with
+    the number of a new one, or two new ones share a number -/
+def newComps (st : St) (c : ObjId) : List ObjId → List ObjId → Option (List ObjId)
+  | [], acc => some acc
+  | d :: t, acc =>
+    if (st.cellOf c).comps.contains d || acc.contains d then newComps st c t acc
+    else if (st.cellOf c).comps.any (fun x => st.cnum x == st.cnum d) || acc.any (fun x => st.cnum x == st.cnum d)
+      then none
+    else newComps st c t (acc ++ [d])
 
-/-- half_space.py:_link_child_to_cell (validator of `left`, `right`): `self._cell = ptr`.
-    Returns the child as mutated by `_set_cell`. -/
+/-- the same for the surfaces (membership in the container and in the `set` is `==`) -/
+def newSurfs (st : St) (c : ObjId) : List ObjId → List ObjId → Option (List ObjId)
+  | [], acc => some acc
+  | s :: t, acc =>
+    if memS st s (st.cellOf c).surfs || memS st s acc then newSurfs st c t acc
+    else if (st.cellOf c).surfs.any (fun x => st.snum x == st.snum s) || acc.any (fun x => st.snum x == st.snum s)
+      then none
+    else newSurfs st c t (acc ++ [s])
+
+/-- half_space.py:HalfSpace._add_new_children_to_cell for cell `c` (repaired code: every new divider is
+    checked before the first one is appended, so a `NumberConflictError` leaves the cell as it was; then the
+    cells, then the surfaces are appended — these appends cannot fail any more). -/
+def addChildren (st : St) (c : ObjId) (other : HS) : Res :=
+  match newComps st c other.comps [], newSurfs st c other.surfs [] with
+  | some nc, some ns =>
+    match addComps c nc st with
+    | (st1, none) => addSurfs c ns st1
+    | r => r
+  | _, _ => (st, some .numberConflict)
+
+/-- half_space.py:_link_child_to_cell (validator of `left`, `right`): `self._cell = ptr`.  The dividers are
+    registered first; only then the child is pointed at the cell (`_set_cell`).  Returns the child as it is
+    afterwards. -/
 def linkChild (st : St) (ptr : Option ObjId) (child : HS) : Res × HS :=
   match ptr with
   | none => ((st, none), child)
-  | some c => (addChildren st c (child.setCell c), child.setCell c)
+  | some c =>
+    match addChildren st c child with
+    | (st1, none) => ((st1, none), child.setCell c)
+    | r => (r, child)
 
 /-- cell.py:geometry.setter with cell.py:_link_geometry_to_cell as validator -/
 def setGeometry (st : St) (c : ObjId) (g : HS) : Res :=
-  let g' := g.setCell c
-  match addChildren st c g' with
-  | (st1, none) => (st1.updCell c (fun cs => { cs with geom := some g' }), none)
+  match addChildren st c g with
+  | (st1, none) => (st1.updCell c (fun cs => { cs with geom := some (g.setCell c) }), none)
   | r => r
 
 /-- what `__iand__` hands to the `right` setter: the object the recursive call returned -/
@@ -220,8 +246,8 @@ def iopTail (u0 : Bool) (l : HS) (p : Option ObjId) (other : HS) (st1 : St) (r1 
     Res × HS × Option HS :=
   match linkChild st1 p newRight with
   | ((st2, some e), _) =>
-    -- the setter raised: `self.right` keeps the old object (mutated in place, `_cell` pointers set)
-    ((st2, some e), .bin u0 l (match p with | some c => r1.setCell c | none => r1) p, none)
+    -- the setter raised before anything was registered: `self.right` keeps the old object
+    ((st2, some e), .bin u0 l r1 p, none)
   | ((st2, none), r2) =>
     match p with
     | none => ((st2, none), .bin u0 l r2 p, none)
@@ -229,25 +255,28 @@ def iopTail (u0 : Bool) (l : HS) (p : Option ObjId) (other : HS) (st1 : St) (r1 
       match addChildren st2 c other with
       | (st3, e) => ((st3, e), .bin u0 l r2 p, none)
 
-/-- half_space.py:HalfSpace.__iand__ / __ior__ called on the (sub)tree `self`.
+/-- half_space.py:HalfSpace.__iand__ (`u = false`) / __ior__ (`u = true`) called on the (sub)tree `self`.
+    Only a node whose own operator is the one being applied takes the operand in (in place, down the right
+    spine); a leaf, a complement and a node with the other operator return the new object `self <op> other`.
     Result: state and error, the tree `self` as mutated in place, and the returned object
     (`none` = `self` itself was returned, `some n` = a new object `n`). -/
 def iop (u : Bool) (st : St) : HS → HS → Res × HS × Option HS
   | .leaf ic d s p, other => ((st, none), .leaf ic d s p, some (.bin u (.leaf ic d s p) other none))
-  | .compl l p, other => ((st, none), .compl l p, some (.bin u (.compl l none) other none))
+  | .compl l p, other => ((st, none), .compl l p, some (.bin u (.compl l p) other none))
   | .bin u0 l r p, other =>
-    match r with
-    | .leaf ic d s q =>
-      -- self.right = self.right & other
-      match linkChild st p (.bin u (.leaf ic d s q) other none) with
-      | ((st1, none), child) => ((st1, none), .bin u0 l child p, none)
-      | ((st1, some e), _) =>
-        ((st1, some e), .bin u0 l (match p with | some c => HS.leaf ic d s (some c) | none => .leaf ic d s q) p, none)
-    | r =>
-      -- self.right &= other ; self._add_new_children_to_cell(other)
-      match iop u st r other with
-      | ((st1, some e), r1, _) => ((st1, some e), .bin u0 l r1 p, none)
-      | ((st1, none), r1, ret) => iopTail u0 l p other st1 r1 (retOr r1 ret)
+    if u0 != u then ((st, none), .bin u0 l r p, some (.bin u (.bin u0 l r p) other none))
+    else
+      match r with
+      | .leaf ic d s q =>
+        -- self.right = self.right & other
+        match linkChild st p (.bin u (.leaf ic d s q) other none) with
+        | ((st1, none), child) => ((st1, none), .bin u0 l child p, none)
+        | ((st1, some e), _) => ((st1, some e), .bin u0 l (.leaf ic d s q) p, none)
+      | r =>
+        -- self.right &= other ; self._add_new_children_to_cell(other)
+        match iop u st r other with
+        | ((st1, some e), r1, _) => ((st1, some e), .bin u0 l r1 p, none)
+        | ((st1, none), r1, ret) => iopTail u0 l p other st1 r1 (retOr r1 ret)
 
 /-- `cell.geometry &= other` / `|= other`: `__iand__` on the geometry, then the geometry setter. -/
 def iopCell (u : Bool) (st : St) (c : ObjId) (other : HS) : Res :=
@@ -485,18 +514,6 @@ def updatePointersP (c : ObjId) : PHS → St → Res × Option HS
       | (res, _) => (res, none)
     | (res, _) => (res, none)
 
-/-- half_space.py:update_pointers on a tree whose dividers already are objects (second run): only the
-    containers are refilled (repaired code). -/
-def updatePointersO (c : ObjId) : HS → St → Res
-  | .leaf ic d _ _, st =>
-    if ic then (if (st.cellOf c).comps.contains d then (st, none) else cellCompAppend st c d)
-    else (if memS st d (st.cellOf c).surfs then (st, none) else cellSurfAppend st c d)
-  | .compl l _, st => updatePointersO c l st
-  | .bin _ l r _, st =>
-    match updatePointersO c l st with
-    | (st1, none) => updatePointersO c r st1
-    | r => r
-
 structure PCell where
   num : Int
   /-- material number of the cell card; 0 = void -/
@@ -537,7 +554,7 @@ def pushUniverses : List (ObjId × PCell) → St → ObjId → St × ObjId
                            universes := st.universes ++ [nextU] }
       pushUniverses t (st1.updCell c (fun cs => { cs with univ := some nextU })) (nextU + 1)
 
-/-- fill.py:Fill.push_to_cells for every cell (`problem.universes[number]`, a `KeyError` when absent) -/
+/-- fill.py:Fill.push_to_cells for every cell (`problem.universes[number]`; `BrokenObjectLinkError` when absent) -/
 def pushFills : List (ObjId × PCell) → St → Res
   | [], st => (st, none)
   | (c, pc) :: t, st =>
@@ -546,7 +563,7 @@ def pushFills : List (ObjId × PCell) → St → Res
     | some n =>
       match firstWith st.unum n st.universes with
       | some u => pushFills t (st.updCell c (fun cs => { cs with fill := some u }))
-      | none => (st, some .keyError)
+      | none => (st, some .brokenLink)
 
 def updateAllCells : List (ObjId × PCell) → St → Res
   | [], st => (st, none)
@@ -596,33 +613,10 @@ def load (st : St) (pcs : List PCell) (nSurf nMat nTrans : Nat) (nextU : ObjId) 
     | r => (r, nextU)
   | r => (r, nextU)
 
-/-- cell.py:Cell.update_pointers run a *second* time on every cell of the problem, which is what
-    mcnp_problem.py:remove_duplicate_surfaces does through `__update_internal_pointers` (and all it does
-    when no duplicate is found): new containers, the material is looked up again by the number *as read*
-    (`old_mat_number`), the containers are refilled from the geometry (repaired code).
-    The universe and fill cards are pushed again afterwards by the code; that part is not modelled
-    (the driver uses this operation only as the last one of a case and does not compare those fields). -/
-def reupdateCells : List ObjId → St → Res
-  | [], st => (st, none)
-  | c :: t, st =>
-    let r : Res :=
-      if (st.cellOf c).oldMat > 0 then
-        match firstWith st.mnum (st.cellOf c).oldMat st.materials with
-        | some m => (st.updCell c (fun cs => { cs with mat := some m }), none)
-        | none => (st, some .brokenLink)
-      else (st.updCell c (fun cs => { cs with mat := none }), none)
-    match r with
-    | (st0, none) =>
-      let st1 := st0.updCell c (fun cs => { cs with surfs := [], comps := [], contLinked := cs.link })
-      match (st1.cellOf c).geom with
-      | none => (st1, some .attributeError)
-      | some g =>
-        match updatePointersO c g st1 with
-        | (st2, none) => reupdateCells t st2
-        | r => r
-    | r => r
-
-def reupdate (st : St) : Res := reupdateCells st.cells st
+/-- mcnp_problem.py:remove_duplicate_surfaces when `find_duplicate_surfaces` finds nothing: no link is
+    touched (since the repair of C18 the link pass is not run a second time).  With duplicates the dividers
+    are re-pointed through the divider setter (C18's subject; the driver does not compare such a step). -/
+def reupdate (st : St) : Res := (st, none)
 
 /-! ### reverse look-ups: the generators, as the filters they compute -/
 
